@@ -17,6 +17,8 @@ COQ = os.path.join(VERIF, 'coq')
 WORK = os.path.join(VERIF, 'work')
 PY = '/venv/bin/python'
 GUARD = 'BRIDGE_ENV_VERIF'
+# the generated files that belong to the development (harness/gen.py translators and harness/graphs.py graphs)
+GEN_FILES = {'ScoreConsts.v', 'Enums.v', 'Regexes.v', 'Schemas.v', 'JsonFraming.v', 'ScoreFns.v', 'ScoreGraph.v', 'NotationGraph.v'}
 
 
 def impl_env():
@@ -198,11 +200,23 @@ def make(targets, timeout=3000, jobs=16):
 
 
 def coq_makefile():
+    """_CoqProject lists the generated files and the .v files TRACKED by git (work-in-progress files lying around in the
+    directories are not part of the development and must not be built by `make all`)."""
     files = []
+    tracked = None
+    try:
+        p = subprocess.run(['git', '-C', VERIF, 'ls-files', 'coq'], capture_output=True, text=True)
+        if p.returncode == 0 and p.stdout.strip():
+            tracked = {l[len('coq/'):] for l in p.stdout.splitlines() if l.endswith('.v')}
+    except OSError:
+        pass
     for sub in ('Gen', 'Model', 'Spec', 'Proofs', 'Props', 'Legacy'):
         d = os.path.join(COQ, sub)
         if os.path.isdir(d):
-            files += sorted(os.path.join(sub, f) for f in os.listdir(d) if f.endswith('.v'))
+            for f in sorted(os.listdir(d)):
+                rel = os.path.join(sub, f)
+                if f.endswith('.v') and ((sub == 'Gen' and f in GEN_FILES) or (sub != 'Gen' and (tracked is None or rel in tracked))):
+                    files.append(rel)
     proj = open(os.path.join(COQ, '_CoqProject.in')).read() + '\n'.join(files) + '\n'
     changed = write_if_changed(os.path.join(COQ, '_CoqProject'), proj)
     if changed or not os.path.exists(os.path.join(COQ, 'Makefile')):
